@@ -130,7 +130,7 @@ PROPS = {
         "verus": ["body", "conn"],
         "verus_thorough": ["copy"],
         "kani": [],
-        "witness": "c09",
+        "witness": ["c09", "cconn"],
         "assumptions": [
             "assumed contract (futures-lite Take): delivers at most `limit` bytes, each the next byte of the inner reader; reports Eof itself once the budget is used; inner reader given up with the Take",
             "assumed contract (async_fs::File / temp_file::TempFile): create gives an empty writer; what is written is the file's content",
@@ -162,7 +162,7 @@ PROPS = {
         "verus": ["conn"],
         "verus_thorough": [],
         "kani": ["c05"],
-        "witness": None,
+        "witness": ["cconn"],
         "assumptions": [
             "assumed contract: write_http_response(writer, resp, close) appends ser(resp, close) on Ok, a prefix of it on Err, and keeps a counting wrapper's counter in step (w_kept)",
             "assumed contract: read_http_request never writes to the stream it reads from (kept(reader))",
@@ -186,7 +186,7 @@ PROPS = {
         "verus": ["conn", "copy", "chunked"],
         "verus_thorough": [],
         "kani": ["c05"],
-        "witness": None,
+        "witness": ["cconn"],
         "assumptions": ["as C05", "assumed write_all contract: on Err a prefix of the slice was appended"],
         "not_covered": ["body source faults (file missing / unreadable / shorter than declared)", "handle_http_conn's `write_response(&e.into())` + shutdown_write branch"],
     },
